@@ -8,6 +8,13 @@
 //!
 //! case    ( N13 S<endpoint module> S<Request|Response> <body: json> )
 //! outcome ( N0 S<re-encoded body> ) | ( N1 N0 ) rejected | ( N1 N1 ) accepted but not re-encodable
+//!
+//! Typed query strings likewise (requests without body members whose query members are leaves,
+//! Option<leaf> or Vec<leaf>): the pairs are form-encoded into the URI, the request goes through
+//! `IncomingRequest::try_from_http_request` and `OutgoingRequest::try_into_http_request`, and the query
+//! string that comes out is decoded into pairs again.
+//! case    ( N14 S<endpoint module> ((Sk Sv)..) )
+//! outcome ( N0 ((Sk Sv)..) ) | ( N1 N0 ) | ( N1 N1 )
 use ruma_common::{
     api::{IncomingRequest, IncomingResponse, MatrixVersion, OutgoingRequest, OutgoingResponse, SendAccessToken},
     CanonicalJsonValue,
@@ -86,9 +93,103 @@ macro_rules! body_tables {
             ];
             match fs.get(idx) { Some(f) => f(body, args), None => Sx::err(9) }
         }
+        #[allow(deprecated)]
+        fn query_roundtrip(idx: usize, query: String, args: &[String]) -> Ret {
+            let fs: &[fn(String, &[String]) -> Ret] = &[
+                $( |query, args| {
+                    use ruma_common::exports::serde_html_form;
+                    let method = <$($seg)::+::Request as OutgoingRequest>::METADATA.method;
+                    let uri = if query.is_empty() { "https://h.example/".to_owned() } else { format!("https://h.example/?{query}") };
+                    let Ok(req) = http::Request::builder().method(method).uri(uri).body(Vec::<u8>::new()) else { return Sx::err(7) };
+                    match <$($seg)::+::Request as IncomingRequest>::try_from_http_request(req, args) {
+                        Ok(r) => {
+                            let tok = SendAccessToken::Always("t");
+                            let out = r.clone().try_into_http_request::<Vec<u8>>("https://h.example", tok, &[MatrixVersion::V1_11])
+                                .or_else(|_| r.try_into_http_request::<Vec<u8>>("https://h.example", tok, &[MatrixVersion::V1_1]));
+                            match out {
+                                Ok(out) => match serde_html_form::from_str::<Vec<(String, String)>>(out.uri().query().unwrap_or("")) {
+                                    Ok(pairs) => Sx::ok(Sx::L(pairs.iter().map(|(k, v)| Sx::L(vec![Sx::s(k), Sx::s(v)])).collect())),
+                                    Err(_) => Sx::err(2),
+                                },
+                                Err(_) => Sx::err(1),
+                            }
+                        }
+                        Err(_) => Sx::err(0),
+                    }
+                } ),*
+            ];
+            match fs.get(idx) { Some(f) => f(query, args), None => Sx::err(9) }
+        }
     };
 }
 for_each_endpoint!(body_tables);
+
+pub fn run_query(endpoint: &str, pairs: &[(String, String)], path_tys: &[String]) -> Sx {
+    use ruma_common::exports::serde_html_form;
+    let Some(idx) = names().iter().position(|n| n == endpoint) else { return Sx::err(9) };
+    let Ok(q) = serde_html_form::to_string(pairs) else { return Sx::err(8) };
+    let args: Vec<String> = path_tys.iter().map(|t| path_arg(t).to_owned()).collect();
+    query_roundtrip(idx, q, &args)
+}
+
+fn leaf_text(r: &mut Rng, t: &Value, bad: u64) -> String {
+    let a = t.as_array().unwrap();
+    match a[0].as_str().unwrap() {
+        "bool" => {
+            let pool: &[&str] = if r.chance(bad, 100) { &["1", "True", "", "yes"] } else { &["true", "false"] };
+            (*r.pick(pool)).to_owned()
+        }
+        "int" => {
+            let lo = a[1].as_i64().unwrap_or(i64::MIN);
+            if r.chance(bad, 100) {
+                (*r.pick(&["-1", "1.0", "1e3", "", "x", "18446744073709551616", "9007199254740992", " 5", "0x10"])).to_owned()
+            } else {
+                match r.below(6) {
+                    0 => "0".to_owned(),
+                    1 => "+7".to_owned(),
+                    2 => "007".to_owned(),
+                    3 => "9007199254740991".to_owned(),
+                    4 if lo < 0 => format!("-{}", r.below(1000)),
+                    _ => format!("{}", r.below(100000)),
+                }
+            }
+        }
+        _ => match gen(r, t, &Cfg { bad, extra: 0 }) {
+            Value::String(s) => s,
+            other => other.to_string(),
+        },
+    }
+}
+
+fn gen_query(r: &mut Rng, sch: &Value, bad: u64) -> Vec<(String, String)> {
+    let mut out = vec![];
+    for f in sch[2].as_array().unwrap() {
+        let name = f["name"].as_str().unwrap().to_owned();
+        let ty = &f["ty"];
+        let required = f["default"][0] == "required" && ty[0] != "opt" || f["default"][0] == "strict";
+        let present = required && !r.chance(bad, 300) || !required && r.chance(3, 5);
+        if !present {
+            continue;
+        }
+        match ty[0].as_str().unwrap() {
+            "vec" => {
+                for _ in 0..r.below(4) {
+                    out.push((name.clone(), leaf_text(r, &ty[1], bad)));
+                }
+            }
+            "opt" => out.push((name, if r.chance(1, 6) { String::new() } else { leaf_text(r, &ty[1], bad) })),
+            _ => out.push((name, leaf_text(r, ty, bad))),
+        }
+    }
+    if r.chance(1, 4) {
+        out.push((format!("x_unknown{}", r.below(3)), "v".to_owned()));
+    }
+    // the order of the pairs is the caller's
+    if r.chance(1, 3) {
+        out.reverse();
+    }
+    out
+}
 
 pub fn run_impl(endpoint: &str, which: &str, content: &Value, path_tys: &[String]) -> Sx {
     let Some(idx) = names().iter().position(|n| n == endpoint) else { return Sx::err(9) };
@@ -128,6 +229,34 @@ pub fn run(tier: &str, seed: u64, em: &mut Emitter) {
             em.emit(if i % 4 == 3 { "body-mutant" } else { "body-valid" }, case, guarded(move || run_impl(&e, &w, &v, &t)));
         }
     }
+    let perq = if tier == "thorough" { 1500 } else { 120 };
+    for q in all["queries"].as_array().expect("queries") {
+        if q["shape"] != "empty" {
+            continue;
+        }
+        let ep = q["endpoint"].as_str().unwrap();
+        let tys: Vec<String> = q["path"].as_array().map(|a| a.iter().map(|x| x.as_str().unwrap_or("").to_owned()).collect()).unwrap_or_default();
+        for i in 0..perq {
+            let pairs = gen_query(&mut r, &q["schema"], if i % 4 == 3 { 12 } else { 0 });
+            let case = Sx::L(vec![Sx::N(14), Sx::s(ep), Sx::L(pairs.iter().map(|(k, v)| Sx::L(vec![Sx::s(k), Sx::s(v)])).collect())]);
+            let (e, t) = (ep.to_owned(), tys.clone());
+            em.emit(if i % 4 == 3 { "query-mutant" } else { "query-valid" }, case, guarded(move || run_query(&e, &pairs, &t)));
+        }
+    }
+}
+
+fn pairs_of(x: &Sx) -> Option<Vec<(String, String)>> {
+    x.as_list()?.iter().map(|p| { let p = p.as_list()?; Some((p.first()?.as_string()?, p.get(1)?.as_string()?)) }).collect()
+}
+
+pub fn replay_query(endpoint: &Sx, pairs: &Sx) -> Option<Sx> {
+    let endpoint = endpoint.as_string()?;
+    let pairs = pairs_of(pairs)?;
+    let all: Value = serde_json::from_str(BODIES).ok()?;
+    let tys = all["queries"].as_array()?.iter().find(|b| b["endpoint"] == endpoint.as_str()).map(|b| {
+        b["path"].as_array().map(|a| a.iter().map(|x| x.as_str().unwrap_or("").to_owned()).collect::<Vec<_>>()).unwrap_or_default()
+    }).unwrap_or_default();
+    Some(guarded(move || run_query(&endpoint, &pairs, &tys)))
 }
 
 pub fn replay(endpoint: &Sx, which: &Sx, content: &Sx) -> Option<Sx> {
